@@ -95,17 +95,19 @@ theorem resolveStep_vals {α : Type} (nm : α → Str) (gt : α → α → Bool)
       · exact hm kv h'
     · exact hm kv h
 
-/-- the loop of `_resolve_dependencies`, whatever its body: if each pass does to the dict what `resolveStep` does to the
+/-- the loop of `_resolve_dependencies`, whatever its body and whatever other locals its state carries (`get` reads
+    the dict out of the state): if each pass does to the dict what `resolveStep` does to the
     association list, the loop leaves the embedding of `resolveMap`; `k` is the code after the loop -/
-theorem resolve_loop_k {α β : Type} (e : α → PVal) (nm : α → Str) (gt : α → α → Bool) (ds : List α)
-    (f : PVal → PVal × PVal → PyM (ForInStep (PVal × PVal)))
-    (hstep : ∀ c ∈ ds, ∀ (s : PVal × PVal) (m : List (Str × α)), s.1 = embMap e m → (∀ kv ∈ m, kv.2 ∈ ds) →
-      ∃ s', f (e c) s = .ok (.yield s') ∧ s'.1 = embMap e (resolveStep gt nm m c))
-    (k : PVal × PVal → PyM β) (r : PyM β)
-    (hk : ∀ s, s.1 = embMap e (resolveMap gt nm ds) → k s = r) :
-    (forIn (ds.map e) (PVal.dict [], PVal.none) f >>= k) = r := by
-  have sim := forIn_sim (fun (s : PVal × PVal) (m : List (Str × α)) => s.1 = embMap e m ∧ ∀ kv ∈ m, kv.2 ∈ ds) embErr e ds f
-    (fun c m => .ok (resolveStep gt nm m c)) (PVal.dict [], PVal.none) [] ⟨rfl, by simp⟩
+theorem resolve_loop_k {α β σ : Type} (get : σ → PVal) (e : α → PVal) (nm : α → Str) (gt : α → α → Bool) (ds : List α)
+    (init : σ) (hinit : get init = embMap e [])
+    (f : PVal → σ → PyM (ForInStep σ))
+    (hstep : ∀ c ∈ ds, ∀ (s : σ) (m : List (Str × α)), get s = embMap e m → (∀ kv ∈ m, kv.2 ∈ ds) →
+      ∃ s', f (e c) s = .ok (.yield s') ∧ get s' = embMap e (resolveStep gt nm m c))
+    (k : σ → PyM β) (r : PyM β)
+    (hk : ∀ s, get s = embMap e (resolveMap gt nm ds) → k s = r) :
+    (forIn (ds.map e) init f >>= k) = r := by
+  have sim := forIn_sim (fun (s : σ) (m : List (Str × α)) => get s = embMap e m ∧ ∀ kv ∈ m, kv.2 ∈ ds) embErr e ds f
+    (fun c m => .ok (resolveStep gt nm m c)) init [] ⟨hinit, by simp⟩
     (by
       intro c hc s m hR
       obtain ⟨s', h1, h2⟩ := hstep c hc s m hR.1 hR.2
@@ -216,15 +218,16 @@ theorem deps_fold (ks : Nodes) (acc : List Node) : ks.toList.foldl depsStep acc 
 
 /-- the loop of `TagList.get_dependencies`, whatever its body: if each pass does to `deps` what `depsStep` does, the
     loop leaves the embedding of `collect`; `k` is the code after the loop -/
-theorem deps_loop_k {β : Type} (tv : Node → PVal) (ks : Nodes)
-    (f : PVal → PVal × PVal → PyM (ForInStep (PVal × PVal)))
-    (hstep : ∀ c ∈ ks.toList, ∀ (s : PVal × PVal) (b : List Node), s.1 = .list (b.map (embT tv)) →
-      ∃ s', f (embT tv c) s = .ok (.yield s') ∧ s'.1 = .list ((depsStep b c).map (embT tv)))
-    (k : PVal × PVal → PyM β) (r : PyM β)
-    (hk : ∀ s, s.1 = .list (ks.collect.map (embT tv)) → k s = r) :
-    (forIn (ks.toList.map (embT tv)) (PVal.list [], PVal.none) f >>= k) = r := by
-  have sim := forIn_sim (fun (s : PVal × PVal) (b : List Node) => s.1 = .list (b.map (embT tv))) embErr (embT tv) ks.toList f
-    (fun c b => .ok (depsStep b c)) (PVal.list [], PVal.none) [] rfl
+theorem deps_loop_k {β σ : Type} (get : σ → PVal) (tv : Node → PVal) (ks : Nodes)
+    (init : σ) (hinit : get init = .list [])
+    (f : PVal → σ → PyM (ForInStep σ))
+    (hstep : ∀ c ∈ ks.toList, ∀ (s : σ) (b : List Node), get s = .list (b.map (embT tv)) →
+      ∃ s', f (embT tv c) s = .ok (.yield s') ∧ get s' = .list ((depsStep b c).map (embT tv)))
+    (k : σ → PyM β) (r : PyM β)
+    (hk : ∀ s, get s = .list (ks.collect.map (embT tv)) → k s = r) :
+    (forIn (ks.toList.map (embT tv)) init f >>= k) = r := by
+  have sim := forIn_sim (fun (s : σ) (b : List Node) => get s = .list (b.map (embT tv))) embErr (embT tv) ks.toList f
+    (fun c b => .ok (depsStep b c)) init [] (by simpa using hinit)
     (by
       intro c hc s b hR
       obtain ⟨s', h1, h2⟩ := hstep c hc s b hR
